@@ -536,10 +536,12 @@ class DiHypergraph:
         >>> DH.add_edge(([3, 4], set()), idx='myedge')
         """
         if isinstance(members, (tuple, list)):
-            tail = members[0]
-            head = members[1]
+            tail = list(members[0])
+            head = list(members[1])
         else:
             raise XGIError("Directed edge must be a list or tuple!")
+        if None in tail or None in head:
+            raise XGIError("None cannot be a node")
 
         uid = next(self._edge_uid) if idx is None else idx
 
@@ -683,9 +685,12 @@ class DiHypergraph:
                     raise XGIError("Directed edge must be a list or tuple!")
 
                 try:
-                    self._edge[idx] = {"in": set(tail), "out": set(head)}
+                    new_edge = {"in": set(tail), "out": set(head)}
                 except TypeError as e:
                     raise XGIError("Invalid ebunch format") from e
+                if None in new_edge["in"] or None in new_edge["out"]:
+                    raise XGIError("None cannot be a node")
+                self._edge[idx] = new_edge
 
                 for n in tail:
                     if n not in self._node:
@@ -747,9 +752,12 @@ class DiHypergraph:
                 try:
                     tail = members[0]
                     head = members[1]
-                    self._edge[idx] = {"in": set(tail), "out": set(head)}
+                    new_edge = {"in": set(tail), "out": set(head)}
                 except TypeError as e:
                     raise XGIError("Invalid ebunch format") from e
+                if None in new_edge["in"] or None in new_edge["out"]:
+                    raise XGIError("None cannot be a node")
+                self._edge[idx] = new_edge
 
                 for node in tail:
                     if node not in self._node:
